@@ -3,6 +3,7 @@ package transport
 import (
 	"mime"
 	"net/http"
+	"strconv"
 	"strings"
 )
 
@@ -25,19 +26,35 @@ func determineResponseContentType(explicitHeaders map[string][]string, r *http.R
 		return acceptApplicationJson
 	}
 
+	// the acceptable supported type with the highest quality wins, the first listed on a tie;
+	// a type listed with q=0 is not acceptable
+	best, bestQ := "", 0.0
 	for _, acceptPart := range strings.Split(accept, ",") {
-		mediaType, _, err := mime.ParseMediaType(strings.TrimSpace(acceptPart))
+		mediaType, params, err := mime.ParseMediaType(strings.TrimSpace(acceptPart))
 		if err != nil {
 			continue
 		}
+		q := 1.0
+		if qs, ok := params["q"]; ok {
+			if f, err := strconv.ParseFloat(qs, 64); err == nil {
+				q = f
+			}
+		}
+		candidate := ""
 		switch mediaType {
 		case "*/*", "application/*":
-			return acceptApplicationGraphqlResponseJson
+			candidate = acceptApplicationGraphqlResponseJson
 		case "application/json":
-			return acceptApplicationJson
+			candidate = acceptApplicationJson
 		case "application/graphql-response+json":
-			return acceptApplicationGraphqlResponseJson
+			candidate = acceptApplicationGraphqlResponseJson
 		}
+		if candidate != "" && q > bestQ {
+			best, bestQ = candidate, q
+		}
+	}
+	if best != "" {
+		return best
 	}
 
 	return acceptApplicationGraphqlResponseJson
